@@ -82,7 +82,7 @@ TOY_T = [[7, 127], [11, 113], [13, 109], [17, 107], [19, 103], [23, 101], [29, 9
 
 def plan(tier: str, seed: int) -> list[dict]:
     q = tier == "quick"
-    B = 52 if q else 1000           # soft budget of the long shards
+    B = 52 if q else 540            # soft budget of the long shards (two waves on 16 cores)
     T = 400 if q else 2700
     specs = []
     for i, ps in enumerate(TOY_Q if q else TOY_T):
@@ -96,12 +96,12 @@ def plan(tier: str, seed: int) -> list[dict]:
         specs.append({"name": f"k1-{arm}", "fn": "shard_big", "curves": ["secp256k1"], "arm": arm,
                       "_budget_s": B, "_timeout_s": T})
     specs.append({"name": "selftest", "fn": "shard_selftest", "_budget_s": B, "_timeout_s": T})
-    specs.append({"name": "toy-wide", "fn": "shard_toy_wide", "_budget_s": 40 if q else 600, "_timeout_s": T})
+    specs.append({"name": "toy-wide", "fn": "shard_toy_wide", "_budget_s": 40 if q else 400, "_timeout_s": T})
     for i in range(1 if q else 8):
         specs.append({"name": f"der-{i}", "fn": "shard_der", "n": 60000 if q else 125000, "part": i,
-                      "_budget_s": 45 if q else 900, "_timeout_s": T})
+                      "_budget_s": 45 if q else 500, "_timeout_s": T})
     specs.append({"name": "wycheproof", "fn": "shard_wycheproof", "_budget_s": B, "_timeout_s": T})
-    specs.append({"name": "bms", "fn": "shard_bms", "n": 6 if q else 60, "_budget_s": 45 if q else 900, "_timeout_s": T})
+    specs.append({"name": "bms", "fn": "shard_bms", "n": 6 if q else 60, "_budget_s": 45 if q else 500, "_timeout_s": T})
     specs.append({"name": "repro", "fn": "shard_repro", "n": 24 if q else 200, "_budget_s": 45 if q else 600, "_timeout_s": T})
     return specs
 
@@ -575,6 +575,9 @@ def _toy_curve(ctx: Ctx, dsa, ec, rc, G, n: int, h: int, main_hash: str) -> None
                     break
                 if retried:
                     ctx.bulk("toy:rfc6979:candidate-out-of-range", 1, 0)
+                if expect is None or first_in_range is None:
+                    ctx.stat("toy:rfc6979:no-candidate-in-400-draws")
+                    continue
                 for low in (False, True):
                     case = {**desc, "hash": hname, "digest": d, "q": q, "lower_s": low}
                     for fn, call in (("sign_", lambda: dsa.sign_(d, q, None, low, ec, hfx, grind=False)),
@@ -779,7 +782,7 @@ def shard_big(ctx: Ctx) -> None:
     obs = _Obs(ctx)
     ossl = _openssl_curves()
     armsel = ctx.params.get("arm")
-    state = {"Q": {}, "it": 0}
+    state = {"Q": {}, "it": 0, "obs": obs}
     rnd = 0
     stop = False
     try:
@@ -978,6 +981,8 @@ def _big_case(ctx: Ctx, dsa, ec, rc, name: str, hname: str, arm: str, rnd: int, 
                  ("r=0", Q, msg, 0, s), ("s=0", Q, msg, r, 0), ("r=n", Q, msg, n, s), ("s=n", Q, msg, r, n),
                  ("other-key", pub(q2), msg, r, s), ("-Q", rc.neg(Q), msg, r, s),
                  ("negative", Q, msg, -r, s), ("negative", Q, msg, r, -s), ("negative", Q, msg, r, s - n)]
+    counts = state["obs"].reach.counts
+    py0, bd0 = counts.get("_assert_as_valid_", 0), ctx.arms["bindings:dsa.verify"]
     for tag, Qm, mm, rm, sm in muts:
         dm = digest if mm is msg else hf(mm).digest()
         em = recdsa.challenge(dm, n)
@@ -1011,7 +1016,9 @@ def _big_case(ctx: Ctx, dsa, ec, rc, name: str, hname: str, arm: str, rnd: int, 
                 if ov != exp:
                     ctx.oracle_broken("ref.ecdsa.verify vs OpenSSL", f"{name} {hname} {tag}: reference {exp}, OpenSSL {ov}")
     if k1:
-        ctx.arms[f"python:_assert_as_valid_:secp256k1" if python_arm else "bindings:verify:secp256k1"] += 1
+        # which arm actually answered: entries of the Python equation vs calls that crossed into the bindings
+        ctx.arms["python:_assert_as_valid_:secp256k1"] += counts.get("_assert_as_valid_", 0) - py0
+        ctx.arms["bindings:dsa.verify:secp256k1"] += ctx.arms["bindings:dsa.verify"] - bd0
 
     # ---- a valid signature whose ephemeral x-coordinate is >= n, built by recovery (no nonce is known for it)
     if p > n + 1 and hi == (rnd + 3) % len(HASHES):
